@@ -50,6 +50,10 @@ class Check:
     self._findings = [f for f in load_findings() if f['property'] == pid]
     self._printed_known = set()
     os.makedirs(EVID, exist_ok=True)
+    if os.path.isdir(REPLAYS) and not self.replay_path:
+      for fn in os.listdir(REPLAYS):
+        if fn.startswith(pid + '_'):
+          os.remove(os.path.join(REPLAYS, fn))
 
   @property
   def thorough(self):
